@@ -327,8 +327,10 @@ impl ReservedHeapSection {
         let mut ret = None;
 
         loop {
-            // Eat the first null chars
-            while let Some('\u{0}') = src.chars().next() {
+            // Eat the first null chars. The test is on the first byte: a copied
+            // string suffix may begin at a cell boundary inside a multi-byte
+            // character, and decoding its continuation bytes as a char can yield '\0'.
+            while src.as_bytes().first() == Some(&0u8) {
                 match ret {
                     Some(_) => {
                         debug_assert_ne!(anchor, self.cell_len());
